@@ -90,7 +90,7 @@ var (
 
 		// Some system glob
 		`:not.active.yet`, `@{busname}`, // dbus unique bus name
-		`:1\.[0-9]+`, `@{busname}`, // dbus unique bus name
+		`:1\.([0-9]|[1-9][0-9]{1,3}|[1-6][0-9]{4})\b`, `@{busname}`, // dbus unique bus name (@{u16}: a larger number stays as it is)
 		`@{bin}/(|ba|da)sh`, `@{sh_path}`, // collect all shell
 		`@{lib}/modules/[^/]+\/`, `@{lib}/modules/*/`, // strip kernel version numbers from kernel module accesses
 
